@@ -43,6 +43,11 @@ class Sim:
         self.mode = 0
         self.dirty = False
         self.no_writes = False
+        # write back-pressure (small write buffer configs): while it may be on, the dispatcher neither reads nor
+        # looks at handler results; in which order it reports an undecodable frame and a failed handler that both
+        # pile up meanwhile is not part of the model: such causes are not generated until the peer accepts again
+        self.accept = True
+        self.bp = False
 
     def frame(self, rid):
         if self.flen == 200:
@@ -90,10 +95,16 @@ def expand(sym, sim, rng=None):
     if k == "pay":
         return [1] + [7] * sym[1] if sim.flen == 200 else None
     if k == "bad":
+        if sim.bp:
+            return None
         return [1, 255]
     if k == "done":          # the oldest / newest outstanding handler completes with result sym[2]
         if not sim.pending:
             return None
+        if sim.bp and sym[2] in (2, 3, 4):
+            return None
+        if sim.sticky and sym[2] == 5 and not sim.accept:
+            sim.bp = True
         rid = sim.pending.pop(0 if sym[1] == 0 else -1)
         return [2, rid, sym[2]]
     if k == "done2":         # two handlers complete in one operation
@@ -104,6 +115,10 @@ def expand(sym, sim, rng=None):
         return [2, b, sym[1], a, sym[2]]
     if k == "raw":
         op = list(sym[1:])
+        if op[0] == 12:
+            sim.accept = op[1] != 0
+            if sim.accept:
+                sim.bp = False
         if op[0] == 8:
             if (op[1] == 3 and sim.mode == 3) or sim.sticky:
                 sim.dirty = sim.dirty or (len(op) > 2 and op[1] == 3)
